@@ -20,7 +20,9 @@ ERRNOS = {"EIO": _errno.EIO, "ENOSPC": _errno.ENOSPC, "EACCES": _errno.EACCES}
 
 
 def is_fault_site(op):
-    return op[0] in FAULT_KINDS or (op[0] == "lock" and op[1] == "flock")
+    # (listing a directory is a READ of it, not an existence probe: its failure is reported to the caller)
+    return op[0] in FAULT_KINDS or (op[0] == "lock" and op[1] == "flock") or (
+        op[0] == "probe" and op[1] in ("listdir", "scandir"))
 
 
 def site_class(sop):
